@@ -171,6 +171,9 @@ impl<R> ClTok<R> {
     pub uninterp spec fn now(&self) -> Option<BufferState<R>>;
     pub uninterp spec fn eventually(&self) -> Option<BufferState<R>>;
     pub uninterp spec fn locks(&self) -> nat;
+    /// number of `notify_one`/`notify_all` calls made on the Condvar half so far: a consumer parked in the wait
+    /// loop re-examines the cell only after such a call
+    pub uninterp spec fn wakes(&self) -> nat;
     pub open spec fn val(&self) -> Option<BufferState<R>> { self.eventually() }
     pub open spec fn wf(&self) -> bool { self.now() is None || self.now() == self.eventually() }
     /// Ghost step for the drivers only (no repository code can call it): the consumer's call STARTED before
@@ -188,6 +191,16 @@ impl<R> ClTok<R> {
 }
 impl<R> Closed<R> {
     pub uninterp spec fn id(&self) -> int;
+    /// `cvar.notify_one()` / `notify_all()`: wakes a consumer parked in the wait loop; touches nothing else
+    #[verifier::external_body]
+    pub fn notify(&self, Tracked(t): Tracked<&mut ClTok<R>>)
+        requires
+            old(t).id() == self.id(),
+        ensures
+            final(t).id() == old(t).id(), final(t).now() == old(t).now(), final(t).eventually() == old(t).eventually(),
+            final(t).locks() == old(t).locks(),
+            final(t).wakes() == old(t).wakes() + 1,
+    { unimplemented!() }
     /// lock.lock().unwrap(): exclusive access to what the cell holds NOW for the rest of the method; no
     /// waiting.  Whatever the method leaves in the cell is what it holds from then on, with one exception:
     /// a cell found empty and left empty still receives the producer's publication later.
@@ -201,6 +214,7 @@ impl<R> Closed<R> {
             final(t).eventually() == (if old(t).now() is None && *final(g) is None { old(t).eventually() } else { *final(g) }),
             final(t).id() == old(t).id(),
             final(t).locks() == old(t).locks() + 1,
+            final(t).wakes() == old(t).wakes(),
     { unimplemented!() }
     /// R13: lock + `while closed.is_none() { closed = cvar.wait(closed).unwrap(); }`.  The loop exits only
     /// once the producer has published, so it hands out the value the cell holds THEN (`eventually()`),
@@ -218,6 +232,7 @@ impl<R> Closed<R> {
             final(t).eventually() == *final(g),
             final(t).id() == old(t).id(),
             final(t).locks() == old(t).locks() + 1,
+            final(t).wakes() == old(t).wakes(),
     { unimplemented!() }
 }
 /// The Condvar half of the pair as seen by a consumer method in which the R13 idiom was NOT recognised (the method
@@ -413,7 +428,7 @@ impl<R: Write> TempFileBufferWriter<R> {
 //@presub /let &\(ref lock, ref cvar\) = &\*self\.closed;\s*let mut closed = lock\.lock\(\)\.unwrap\(\);/ => let closed = self.closed.lock(Tracked(cl)); min=1 count=1
 //@sub /fn drop\(&mut self\)/ => fn drop(&mut self, Tracked(cl): Tracked<&mut ClTok<R>>)
 //@sub /std::mem::replace\(/ => mem_replace( min=1 count=1
-//@sub /\n\s*cvar\.notify_one\(\);/ => "" min=1 count=1
+//@sub /\bcvar\.notify_(?:one|all)\(\);/ => self.closed.notify(Tracked(cl)); min=0
 //@sub /\n\s*drop\(closed\);/ => "" min=1 count=1
 //@sig
     requires
@@ -429,6 +444,8 @@ impl<R: Write> TempFileBufferWriter<R> {
         final(cl).now() == final(cl).val(),
         [[L: publishes_once]]
         final(cl).locks() == old(cl).locks() + 1,
+        [[L: a_parked_consumer_is_woken_on_every_path]]
+        final(cl).wakes() >= old(cl).wakes() + 1,
         [[L: writer_left_empty]]
         final(self).buffer_state is NotStarted,
 //@end
